@@ -184,7 +184,7 @@ def run_mutant(unit, text, m, idx, rlimit=40, base_errors=frozenset()):
     with open(path, "w") as fh:
         fh.write(text[:m["pa"]] + m["rep"] + text[m["pb"]:])
     from .run import run_with_timeout
-    p = run_with_timeout(["verus", name + ".rs", "--error-format=json", "--multiple-errors", "5", "--rlimit", str(rlimit)],
+    p = run_with_timeout(["verus", name + ".rs", "--error-format=json", "--multiple-errors", "40", "--rlimit", str(rlimit)],
                          d, None, int(os.environ.get("SOSV_MUTANT_TIMEOUT", "240")))
     status = "survived"
     msgs = []
@@ -203,7 +203,7 @@ def run_mutant(unit, text, m, idx, rlimit=40, base_errors=frozenset()):
             continue
         if dj.get("level") != "error" or dj.get("message", "").startswith("aborting"):
             continue
-        key = (dj["message"].split("\n")[0][:100], tuple(sorted(sp["line_start"] for sp in dj.get("spans", []) if sp.get("is_primary"))))
+        key = (dj["message"].split("\n")[0][:100], tuple(sorted((sp["line_start"], sp.get("column_start", 0)) for sp in dj.get("spans", []))))
         if key in base_errors:
             continue
         if idx < 0:
